@@ -4759,12 +4759,8 @@ where
                 )
               })
           }
-          _ => Some(format!(
-            "expected value {} {}, got {:?}",
-            self.state.ctrl.unwrap(),
-            t,
-            b
-          )),
+          Some(ctrl) => Some(format!("expected value {} {}, got {:?}", ctrl, t, b)),
+          None => Some(format!("expected value {}, got {:?}", t, b)),
         },
         #[cfg(feature = "additional-controls")]
         token::Value::BYTE(bv) => match &self.state.ctrl {
@@ -4809,12 +4805,8 @@ where
               )
             }),
           },
-          _ => Some(format!(
-            "expected value {} {}, got {:?}",
-            self.state.ctrl.unwrap(),
-            bv,
-            b
-          )),
+          Some(ctrl) => Some(format!("expected value {} {}, got {:?}", ctrl, bv, b)),
+          None => Some(format!("expected value {}, got {:?}", bv, b)),
         },
         _ => Some(format!("expected {}, got {:?}", value, b)),
       },
